@@ -72,6 +72,29 @@ inline J track_state(const t_bidib_track_state &t, bool mask) {
 	return j;
 }
 
+// ---- raw scan for uninitialised fields: stack garbage is 0xAA.. (-ftrivial-auto-var-init=pattern), fresh heap 0xA5.. (ASan fill);
+// a bool that is neither 0 nor 1, an enum outside its range or a pointer made of the fill pattern can only be uninitialised memory
+struct Scan {
+	std::string bad;
+	void b(const char *name, const bool &v) { uint8_t x; memcpy(&x, &v, 1); if (x > 1 && bad.empty()) bad = std::string(name) + " (bool) holds " + std::to_string(x); }
+	template <class E> void e(const char *name, const E &v, std::initializer_list<long> ok) { long x = (long) (int) v; bool f = false; for (long o : ok) if (o == x) f = true; if (!f && bad.empty()) bad = std::string(name) + " (enum) holds " + std::to_string(x); }
+	void p(const char *name, const void *ptr) { uintptr_t x = (uintptr_t) ptr; if ((x == 0xAAAAAAAAAAAAAAAAULL || x == 0xA5A5A5A5A5A5A5A5ULL) && bad.empty()) bad = std::string(name) + " (pointer) holds the fill pattern"; }
+	void i(const char *name, long long v) { if ((v == (int) 0xAAAAAAAA || v == (int) 0xA5A5A5A5 || (unsigned long long) v == 0xAAAAAAAAAAAAAAAAULL || (unsigned long long) v == 0xAAAAAAAAULL) && bad.empty()) bad = std::string(name) + " (integer) holds the fill pattern"; }
+	void power(const char *n, const t_bidib_power_consumption &q) { b((std::string(n) + ".known").c_str(), q.known); if (q.known) b((std::string(n) + ".overcurrent").c_str(), q.overcurrent); if (q.known && !q.overcurrent) i((std::string(n) + ".current").c_str(), q.current); }
+	void board_acc(const t_bidib_board_accessory_state_data &d) { p("state_id", d.state_id); e("execution_state", d.execution_state, {0, 1, 2, 3, 0x80}); }
+	void dcc_acc(const t_bidib_dcc_accessory_state_data &d) { p("state_id", d.state_id); b("coil_on", d.coil_on); b("output_controls_timing", d.output_controls_timing); e("ack", d.ack, {0, 1, 2, 3, 4}); e("time_unit", d.time_unit, {0, 1}); }
+	void periph(const t_bidib_peripheral_state_data &d) { p("state_id", d.state_id); e("time_unit", d.time_unit, {0, 1}); }
+	void seg(const t_bidib_segment_state_data &d) { b("occupied", d.occupied); b("conf_void", d.confidence.conf_void); b("freeze", d.confidence.freeze); b("nosignal", d.confidence.nosignal); power("power_consumption", d.power_consumption); i("dcc_address_cnt", (long long) d.dcc_address_cnt); if (d.dcc_address_cnt) p("dcc_addresses", d.dcc_addresses); }
+	void rev(const t_bidib_reverser_state_data &d) { p("state_id", d.state_id); e("state_value", d.state_value, {0, 1, 2}); }
+	void train(const t_bidib_train_state_data &d) {
+		b("on_track", d.on_track); if (d.on_track) e("orientation", d.orientation, {0, 1}); i("set_speed_step", d.set_speed_step); b("set_is_forwards", d.set_is_forwards); e("ack", d.ack, {0, 1, 2, 3, 4});
+		i("detected_kmh_speed", d.detected_kmh_speed); i("peripheral_cnt", (long long) d.peripheral_cnt); if (d.peripheral_cnt) p("peripherals", d.peripherals);
+		for (size_t k = 0; k < d.peripheral_cnt && k < 64; k++) p("peripherals[].id", d.peripherals[k].id);
+		b("signal_quality_known", d.decoder_state.signal_quality_known); b("temp_known", d.decoder_state.temp_known); b("energy_storage_known", d.decoder_state.energy_storage_known);
+		b("container2_storage_known", d.decoder_state.container2_storage_known); b("container3_storage_known", d.decoder_state.container3_storage_known);
+	}
+	void booster(const t_bidib_booster_state_data &d) { power("power_consumption", d.power_consumption); b("voltage_known", d.voltage_known); b("temp_known", d.temp_known); e("power_state_simple", d.power_state_simple, {0, 1, 2}); }
+};
 // A retained query result (C17): acquire now, canonicalise any number of times, free once.
 struct Ret {
 	std::string fn;
@@ -81,6 +104,7 @@ struct Ret {
 	t_bidib_reverser_state_query rq; t_bidib_id_query idq; t_bidib_id_list_query il; t_bidib_board_features_query bf; t_bidib_train_position_query tp;
 	t_bidib_train_state_query tsq;
 	bool freed = false;
+	std::string pre_scan;      // uninitialised-field finding for value-type results (scanned at acquisition)
 };
 
 inline const char *cs(const std::vector<std::string> &v, size_t i) { return (i < v.size() && v[i] != "\x01NULL") ? v[i].c_str() : nullptr; }
@@ -135,11 +159,11 @@ inline bool acquire(Ret &r, const std::string &fn, const std::vector<std::string
 			j.set("known", q.known_and_connected);
 			if (q.known_and_connected) { J u = J::arr(); u.push((int) q.address.top); u.push((int) q.address.sub); u.push((int) q.address.subsub); j.set("addr", u); }
 		} else if (fn == "board_connected") j.set("v", bidib_get_board_connected(cs(s, 0)));
-		else if (fn == "booster_state") { t_bidib_booster_state_query q = bidib_get_booster_state(cs(s, 0)); j.set("known", q.known); if (q.known) j.set("data", booster(q.data, true)); }
-		else if (fn == "track_output_state") { t_bidib_track_output_state_query q = bidib_get_track_output_state(cs(s, 0)); j.set("known", q.known); if (q.known) j.set("cs", (int) q.cs_state); }
+		else if (fn == "booster_state") { t_bidib_booster_state_query q = bidib_get_booster_state(cs(s, 0)); { Scan sc; sc.b("known", q.known); if (q.known) sc.booster(q.data); r.pre_scan = sc.bad; } j.set("known", q.known); if (q.known) j.set("data", booster(q.data, true)); }
+		else if (fn == "track_output_state") { t_bidib_track_output_state_query q = bidib_get_track_output_state(cs(s, 0)); { Scan sc; sc.b("known", q.known); r.pre_scan = sc.bad; } j.set("known", q.known); if (q.known) j.set("cs", (int) q.cs_state); }
 		else if (fn == "train_dcc_addr") { t_bidib_dcc_address_query q = bidib_get_train_dcc_addr(cs(s, 0)); j.set("known", q.known); if (q.known) { j.set("l", (int) q.dcc_address.addrl); j.set("h", (int) q.dcc_address.addrh); } }
-		else if (fn == "train_peripheral_state") { t_bidib_train_peripheral_state_query q = bidib_get_train_peripheral_state(cs(s, 0), cs(s, 1)); j.set("avail", q.available); if (q.available) j.set("state", (int) q.state); }
-		else if (fn == "train_speed_step") { t_bidib_train_speed_step_query q = bidib_get_train_speed_step(cs(s, 0)); j.set("known", q.known_and_avail); if (q.known_and_avail) { j.set("speed", q.speed_step); j.set("fwd", q.is_forwards); } }
+		else if (fn == "train_peripheral_state") { t_bidib_train_peripheral_state_query q = bidib_get_train_peripheral_state(cs(s, 0), cs(s, 1)); { Scan sc; sc.b("available", q.available); r.pre_scan = sc.bad; } j.set("avail", q.available); if (q.available) j.set("state", (int) q.state); }
+		else if (fn == "train_speed_step") { t_bidib_train_speed_step_query q = bidib_get_train_speed_step(cs(s, 0)); { Scan sc; sc.b("known_and_avail", q.known_and_avail); if (q.known_and_avail) { sc.b("is_forwards", q.is_forwards); sc.i("speed_step", q.speed_step); } r.pre_scan = sc.bad; } j.set("known", q.known_and_avail); if (q.known_and_avail) { j.set("speed", q.speed_step); j.set("fwd", q.is_forwards); } }
 		else if (fn == "train_speed_kmh") { t_bidib_train_speed_kmh_query q = bidib_get_train_speed_kmh(cs(s, 0)); j.set("known", q.known_and_avail); if (q.known_and_avail) j.set("kmh", q.speed_kmh); }
 		else if (fn == "train_on_track") j.set("v", bidib_get_train_on_track(cs(s, 0)));
 		else if (fn == "point_state_index") j.set("v", (long long) bidib_get_point_state_index(cs(s, 0)));
@@ -167,6 +191,38 @@ inline J canon(const Ret &r, bool mask = true) {
 		case 10: j.set("known", r.tsq.known); if (r.tsq.known) j.set("data", train(r.tsq.data, mask)); return j;
 	}
 	return j;
+}
+
+inline std::string scan(const Ret &r) {
+	if (!r.pre_scan.empty()) return r.pre_scan;
+	Scan sc;
+	switch (r.kind) {
+		case 1: {
+			const t_bidib_track_state &t = r.ts;
+			for (size_t i = 0; i < t.points_board_count && sc.bad.empty(); i++) { sc.p("points_board[].id", t.points_board[i].id); sc.board_acc(t.points_board[i].data); }
+			for (size_t i = 0; i < t.signals_board_count && sc.bad.empty(); i++) { sc.p("signals_board[].id", t.signals_board[i].id); sc.board_acc(t.signals_board[i].data); }
+			for (size_t i = 0; i < t.points_dcc_count && sc.bad.empty(); i++) { sc.p("points_dcc[].id", t.points_dcc[i].id); sc.dcc_acc(t.points_dcc[i].data); }
+			for (size_t i = 0; i < t.signals_dcc_count && sc.bad.empty(); i++) { sc.p("signals_dcc[].id", t.signals_dcc[i].id); sc.dcc_acc(t.signals_dcc[i].data); }
+			for (size_t i = 0; i < t.peripherals_count && sc.bad.empty(); i++) { sc.p("peripherals[].id", t.peripherals[i].id); sc.periph(t.peripherals[i].data); }
+			for (size_t i = 0; i < t.segments_count && sc.bad.empty(); i++) { sc.p("segments[].id", t.segments[i].id); sc.seg(t.segments[i].data); }
+			for (size_t i = 0; i < t.reversers_count && sc.bad.empty(); i++) { sc.p("reversers[].id", t.reversers[i].id); sc.rev(t.reversers[i].data); }
+			for (size_t i = 0; i < t.trains_count && sc.bad.empty(); i++) { sc.p("trains[].id", t.trains[i].id); sc.train(t.trains[i].data); }
+			for (size_t i = 0; i < t.booster_count && sc.bad.empty(); i++) { sc.p("booster[].id", t.booster[i].id); sc.booster(t.booster[i].data); }
+			for (size_t i = 0; i < t.track_outputs_count && sc.bad.empty(); i++) sc.p("track_outputs[].id", t.track_outputs[i].id);
+			break;
+		}
+		case 2: sc.b("known", r.ua.known); if (r.ua.known) { sc.e("type", r.ua.type, {0, 1}); if (r.ua.type == BIDIB_ACCESSORY_BOARD) sc.board_acc(r.ua.board_accessory_state); else sc.dcc_acc(r.ua.dcc_accessory_state); } break;
+		case 3: sc.b("available", r.pq.available); if (r.pq.available) sc.periph(r.pq.data); else sc.p("data.state_id (must be freeable)", r.pq.data.state_id); break;
+		case 4: sc.b("known", r.sq.known); if (r.sq.known) sc.seg(r.sq.data); break;
+		case 5: sc.b("available", r.rq.available); if (r.rq.available) sc.rev(r.rq.data); else sc.p("data.state_id (must be freeable)", r.rq.data.state_id); break;
+		case 6: sc.b("known", r.idq.known); sc.p("id", r.idq.id); break;
+		case 7: sc.i("length", (long long) r.il.length); if (r.il.length) sc.p("ids", r.il.ids); break;
+		case 8: sc.i("length", (long long) r.bf.length); if (r.bf.length) sc.p("features", r.bf.features); break;
+		case 9: sc.i("length", (long long) r.tp.length); if (r.tp.length) { sc.p("segments", r.tp.segments); sc.b("orientation_is_left", r.tp.orientation_is_left); } break;
+		case 10: sc.b("known", r.tsq.known); if (r.tsq.known) sc.train(r.tsq.data); break;
+		default: break;
+	}
+	return sc.bad;
 }
 
 inline void release(Ret &r) {
